@@ -512,6 +512,59 @@ pub fn check_cross(c: &CrossCase, rep: &mut Report, lim: &Limits) {
     }
 }
 
+/// Part 4c: the message carries one more field than the expected record type (resp. the
+/// expected variant type has one more tag than the message). The specification ignores the
+/// extra field / tag whatever the spelling of the labels: decoding at the type written by
+/// name and at the type written by id must give the same value.
+pub fn check_width(l: &str, m: &str, rep: &mut Report, _lim: &Limits) {
+    let (il, im) = (h(l), h(m));
+    if il == im {
+        return;
+    }
+    rep.evaluations += 1;
+    let case = json!({"part": "width", "l": l, "m": m, "id_l": il, "id_m": im});
+    let kbase = format!("{}|{}", klabel(l), klabel(m));
+    let menv = refmodel::ty::Env::new();
+    let env = TypeEnv::new();
+    // record: wire {L:nat; M:text}, expected {L:nat}
+    let wire_rec = wire::encode(&menv, &[Ty::record(vec![(il, Ty::Prim(P::Nat)), (im, Ty::Prim(P::Text))])], &[Val::record(vec![(il, Val::nat(1)), (im, Val::Text("x".into()))])], true);
+    // variant: wire {L:nat}, expected {L:nat; M:text}
+    let wire_var = wire::encode(&menv, &[Ty::variant(vec![(il, Ty::Prim(P::Nat))])], &[Val::Variant(il, Box::new(Val::nat(1)))], true);
+    let (Ok(wire_rec), Ok(wire_var)) = (wire_rec, wire_var) else {
+        rep.notes.push(format!("width: reference encoder failed for {l:?}/{m:?}"));
+        return;
+    };
+    let (ql, qm) = (quote_candid(l), quote_candid(m));
+    let cases: Vec<(&str, String, &Vec<u8>, Val)> = vec![
+        ("record|type=N", format!("record {{ {ql} : nat }}"), &wire_rec, Val::record(vec![(il, Val::nat(1))])),
+        ("record|type=I", format!("record {{ {il} : nat }}"), &wire_rec, Val::record(vec![(il, Val::nat(1))])),
+        ("variant|type=NN", format!("variant {{ {ql} : nat; {qm} : text }}"), &wire_var, Val::Variant(il, Box::new(Val::nat(1)))),
+        ("variant|type=II", format!("variant {{ {il} : nat; {im} : text }}"), &wire_var, Val::Variant(il, Box::new(Val::nat(1)))),
+    ];
+    for (tag, ttext, bytes, want) in cases {
+        rep.transitions += 1;
+        let key = format!("width|{tag}|{kbase}");
+        let t = match parse_type(&ttext) {
+            Ok(t) => t,
+            Err(e) => {
+                rep.violation(&format!("{key}|parse-type"), format!("type text `{ttext}` rejected: {e}"), case.clone());
+                continue;
+            }
+        };
+        match catch(|| IDLArgs::from_bytes_with_types(bytes, &env, std::slice::from_ref(&t))) {
+            Ok(Ok(a)) => match bridge::from_idl_args(&a) {
+                Ok(vs) if vs == vec![want.clone()] => {}
+                other => rep.violation(&format!("{key}|value"), format!("decoding {} at `{ttext}` gave {other:?}, expected {want}", hexs(bytes)), case.clone()),
+            },
+            Ok(Err(e)) => rep.violation(&format!("{key}|error"), format!("decoding {} at `{ttext}` failed: {}", hexs(bytes), first_line(&format!("{e}"))), case.clone()),
+            Err(p) => rep.violation(&format!("{key}|panic"), format!("decoding {} at `{ttext}` panicked: {p}", hexs(bytes)), case.clone()),
+        }
+    }
+    rep.traces_validated += 1;
+    rep.nontrivial += 1;
+    rep.outcome(if il < im { "width:extra-label-has-greater-id" } else { "width:extra-label-has-smaller-id" });
+}
+
 // ---------------------------------------------------------------------------------------
 // part 5a: duplicates in text
 // ---------------------------------------------------------------------------------------
